@@ -411,40 +411,33 @@ def r11e(ctx, run):
 
 
 def r11f(ctx, run):
-    """the side of an error union a value is STORED on is chosen by the value's own (declared) type: in cast_into_memory the tests `fits the payload
-    type` / `fits the error type` are asked of the source type as given, not of the type after its nominal wrappers were stripped.  With the
-    stripped type the two sides of `Errno!Fd` (two distincts of i32) look the same and an error is stored as a payload; the switch (which maps arms
-    by the exact types, R11.e) then runs the payload arm for it."""
-    F = ctx.facts
-    fn = F.fn("codegen::compiler::cast_into_memory")
-    U = "codegen::compiler::cast_into_memory"
-    n = 0
-    for c in fn.calls():
-        if short(c.callee) != "can_fit_into":
-            continue
-        arg = fn.chain_operand(c.args[1], depth=10)
-        side = None
-        for nd in FA.walk_chain(arg):
-            for pr in nd.get("proj", []) or []:
-                if isinstance(pr, str) and ("payload_ty" in pr or "error_ty" in pr):
-                    side = "payload_ty" if "payload_ty" in pr else "error_ty"
-        txt = FA.show_chain(arg, 8)
-        if side is None and ("payload_ty" in txt or "error_ty" in txt):
-            side = "payload_ty" if "payload_ty" in txt else "error_ty"
-        if side is None:
-            # the two guards of the `(_, ErrorUnion)` arms: identified by their position next to cast_payload_into_tagged_union
-            nxt = [x for x in fn.calls() if short(x.callee) == "cast_payload_into_tagged_union" and fn.can_reach(c.bb, x.bb) and x.ln > c.ln and x.ln - c.ln < 20]
-            if not nxt:
-                continue
-            side = "a side"
-        n += 1
-        recv = fn.chain_operand(c.args[0], depth=14)
-        stripped = sorted({short(x["callee"]) for x in FA.walk_chain(recv) if x.get("kind") == "call" and short(x["callee"]) in ("absolute_intern_ty", "absolute_ty")})
-        run.check(not stripped, c.site(), "the source type asked whether it fits %s is the type as given" % side, U, "side-by-declared-type:%d" % n, c.file, c.ln,
-                  "whether the value goes on the %s side of the error union is asked of a type that went through %s: for `Errno!Fd` (two distincts of i32) an Errno "
-                  "value is stored with the payload tag, and `switch` runs the Fd arm for it" % (side, ", ".join(stripped)))
-    if n < 2:
-        raise LookupError("side tests of the (_, ErrorUnion) arms in cast_into_memory: %d" % n)
+    """the side of an error union a value is STORED on is the side its own (declared) type names: cast_into_memory evaluated from source (the evaluator
+    of R07.h) for values converted into error unions whose two sides differ only nominally - `Errno!Fd`, two distincts of i32 - and for the explicit
+    cast of a distinct value, where only the type underneath can decide.  The tag handed to cast_payload_into_tagged_union must be 0 for the error
+    side and 1 for the payload side (the switch maps arms to tags by the exact types, R11.e)."""
+    import c07
+    from absint import Variant, Term, Obj, Panic, CannotEstablish
+    V = Variant
+    cm, accepts, build = c07.cast_evaluator(ctx)
+    i32, st = V("Ty::IInt", {"0": 32}), V("Ty::String")
+    d1, d2, d3 = V("Ty::Distinct", {"uid": 1, "sub_ty": i32}), V("Ty::Distinct", {"uid": 2, "sub_ty": i32}), V("Ty::Distinct", {"uid": 3, "sub_ty": i32})
+    u12 = V("Ty::ErrorUnion", {"error_ty": d1, "payload_ty": d2})
+    usi = V("Ty::ErrorUnion", {"error_ty": st, "payload_ty": i32})
+    cases = [
+        ("an Errno into Errno!Fd (two distincts of i32)", d1, u12, 0), ("an Fd into Errno!Fd", d2, u12, 1),
+        ("a str into str!i32", st, usi, 0), ("an i32 into str!i32", i32, usi, 1),
+        ("a distinct i32 cast to str!i32 (explicit cast: the type underneath decides)", d3, usi, 1),
+    ]
+    for desc, A, B, want in cases:
+        try:
+            log = build(A, B)
+            tags = [a[9] for h, a in log if h == "cast_payload_into_tagged_union" and len(a) > 9]
+            got = tags[0] if len(tags) == 1 else "no single cast_payload_into_tagged_union (%s)" % [h for h, _ in log]
+        except (Panic, CannotEstablish) as c:
+            got = "%s" % getattr(c, "what", c)
+        run.check(got == want, cm.site(), "%s: tag %s" % (desc, got), "cast_into_memory", "side:" + desc.split(" (")[0], cm.file, cm.ln,
+                  "%s is stored with %s; it belongs on the %s side (tag %d): the switch over such a value runs the arm of the other side" % (
+                      desc, ("tag %s" % got) if isinstance(got, int) else got, "error" if want == 0 else "payload", want))
 
 
 def rules(ctx):
@@ -453,6 +446,6 @@ def rules(ctx):
         Rule("R11.b", "coverage logic: not-a-variant, duplicates, missing variants, complete variant list, default-arm rules", 8, r11b),
         Rule("R11.d", "variants of one enum get pairwise distinct discriminants; hand-written ones are kept (numbering loop evaluated on every small enum shape)", 1, r11d),
         Rule("R11.e", "the tag an arm's type is mapped to is the tag its producer wrote: get_tagged_union_discrim evaluated (nominally different same-shape sides included)", 11, r11e),
-        Rule("R11.f", "the side of an error union a value is stored on is chosen by its declared type (def-use of the side tests in cast_into_memory)", 2, r11f),
+        Rule("R11.f", "the side of an error union a value is stored on is the side its declared type names (cast_into_memory evaluated; explicit casts of distincts fall back to the type underneath)", 5, r11f),
         Rule("R11.c", "dispatch wiring: I8 tag at discriminant_offset, entry per arm keyed by its variant, fallback/fault, nullable form, argument binding", 9, r11c),
     ]
